@@ -212,6 +212,25 @@ def probe(binary, hooks, cfg, orig_port, logfile):
                 or m.verb.startswith("ERROR")]
         obs.append(("welcome", twin.normalise(keep)))
         obs.append(("prefix", sorted({m.source for m in burst if m.is_numeric})))
+        if not c1.eof and any(m.verb == "001" for m in burst):
+            # documented semantics, asserted on the run itself (a changed value having *some* effect is not enough)
+            obs.append(("assert:every-numeric-prefixed-with-name", {m.source for m in burst if m.is_numeric} == {cfg["name"]}))
+            obs.append(("assert:001-names-the-network", any(m.verb == "001" and cfg["network"] in m.params[-1] for m in burst)))
+            obs.append(("assert:372-carries-the-motd", any(m.verb == "372" and m.params[-1] == cfg["motd"] for m in burst)
+                        or "\n" in cfg["motd"]))
+            dm = cfg.get("default_user_modes", {})
+            want = "+" + "".join(l for k, l in (("invisible", "i"), ("oper", "o"), ("local_oper", "O"), ("registered", "r"),
+                                                ("wallops", "w")) if dm.get(k))
+            obs.append(("assert:221-shows-default-user-modes", any(m.verb == "221" and m.params[1:2] == [want] for m in burst)))
+            if cfg.get("password"):
+                cw = wire.Client(orig_port, name="wrongpw", timeout=5.0)
+                clients.append(cw)
+                try:
+                    lw = cw.register("probew", "probew", password="not-the-password")
+                    refused = not any(m.verb == "001" for m in lw)
+                except (wire.Closed, wire.Timeout) as ex:
+                    refused = not any(m.verb == "001" for m in getattr(ex, "lines", []))
+                obs.append(("assert:wrong-server-password-refused", refused))
         obs.append(("framing", list(c1.bad_frames)))
         if not c1.eof:
             for line in ("ADMIN", "LINKS", "VERSION", "MOTD", "WHOIS probe1"):
@@ -239,6 +258,10 @@ def probe(binary, hooks, cfg, orig_port, logfile):
         # a plain member and an outsider of the preconfigured channel
         c3, _ = reg("probe3", "plain", PW["server"])
         if not c3.eof:
+            ch0 = (cfg.get("channels") or [{}])[0]
+            if ch0.get("modes", {}).get("key") and ch0.get("name"):
+                lk = q(c3, "JOIN %s not-the-key" % ch0["name"], "plain-join-wrong-key")
+                obs.append(("assert:wrong-channel-key-refused", any(m.verb == "475" for m in lk)))
             q(c3, "JOIN #maintopic blabla", "plain-join")
             q(c3, "TOPIC #maintopic :changed by plain member", "plain-topic")
             q(c3, "PRIVMSG #maintopic :from plain member", "plain-speak")
@@ -328,7 +351,8 @@ def _key_effect_job(args):
         o1 = probe(binary, hooks, pert, port, logfile)
         diffs = [a[0] for a, b in zip(o0, o1) if a != b] + (["length"] if len(o0) != len(o1) else [])
         base_ok = dict(o0).get("listening-on-documented-address") is True
-        broken = [a[0] for a in o0 + o1 if isinstance(a[0], str) and a[0].startswith("assert:") and a[1] is False]
+        # assertions are judged on the base run only: in a perturbed run their premises may not hold any more
+        broken = [a[0] for a in o0 if isinstance(a[0], str) and a[0].startswith("assert:") and a[1] is False]
         return dict(path=path, status="effect" if diffs else "no-effect", differs_in=diffs[:6], base_ok=base_ok,
                     broken_assertions=sorted(set(broken)),
                     old=repr(get(base, path))[:60], new=repr(get(pert, path))[:60],
